@@ -256,7 +256,11 @@ func runSHS(rc *sk.RunCtx, focus string) {
 		// state advances before the certificate is looked at, so the rejection has to be final for that machine.
 		id := mk("garbler", "garbler", ca, caKey, ok0, ok1, pickV())
 		id.trusted = true
-		for v, cr := range id.creds {
+		for _, v := range []cert.Version{cert.Version1, cert.Version2} { // (fixed order: the loop draws from the tape)
+			cr := id.creds[v]
+			if cr == nil {
+				continue
+			}
 			b := append([]byte(nil), cr.Bytes...)
 			// (extensions and bit flips, which may still decode to the signed content, are the C02 mutations' business)
 			if tp.Chance(1, 2) {
